@@ -34,7 +34,7 @@ var Prop = &engine.Prop{
 		"JsUnixTime/Unix2Time carry whole seconds: the round trip is required to give back the unix second, not the sub-second part",
 		"SQL Scan is exercised only with the Go types the Scan methods name (integers in int64 range, time.Time, string/[]byte); other driver types are outside the property's quantifier",
 	},
-	ShardsQuick: 4, ShardsThorough: 160,
+	ShardsQuick: 4, ShardsThorough: 16,
 	Kinds: []engine.Kind{
 		{Name: "rt_direct", Quick: 1200, Thorough: 360000, Fn: rtDirectCase},
 		{Name: "rt_retained", Quick: 1500, Thorough: 150000, Fn: rtRetainedCase},
